@@ -906,6 +906,33 @@ def rule_equality(m, classes=None):
                     dst = 'this' if objt in (('this',), ('deref', ('this',))) else 'other'
                     # all_of must lead to `return false` when it fails: the call is negated in a branch that returns false
                     incl.add((src, dst))
+        # a missing edge makes the answer false: the branch taken when hasEdge(..) is false returns false or clears the
+        # result flag that is returned
+        rets_eq = [n for n in f.nodes if n['k'] == 'ReturnStmt' and f.children(n['i'])]
+        ret_vars = {ctx.tt.t(f.children(n['i'])[0]) for n in rets_eq}
+        unfalsified = None
+        for n in f.nodes:
+            if n['k'] == 'CXXMemberCallExpr' and 'callee' in n and f.unit.decl(n['callee'])['name'] == 'hasEdge' and \
+                    any(f.nodes[a]['k'] in ('ForStmt', 'WhileStmt', 'CXXForRangeStmt') for a in f.ancestors(n['i'])):
+                ht = ctx.tt.t(n['i'])
+                falsified = False
+                for x in f.nodes:
+                    is_clear = (x['k'] == 'BinaryOperator' and x.get('op') == '=' and ctx.tt.t(x['c'][0]) in ret_vars and
+                                ctx.tt.t(x['c'][1]) == ('bool', False))
+                    is_retf = (x['k'] == 'ReturnStmt' and f.children(x['i']) and ctx.tt.t(f.children(x['i'])[0]) == ('bool', False))
+                    if not (is_clear or is_retf):
+                        continue
+                    from .rules_pair import region_atoms as _ra
+                    for at in _ra(f, ctx.tt, x['i']):
+                        if at == ('un', '!', False, ht) or (at[0] == 'un' and at[1] == '!' and strip_cast(at[3]) == ht):
+                            falsified = True
+                if not falsified:
+                    unfalsified = unfalsified or n
+        if unfalsified is not None and not any(x['k'] == 'LambdaExpr' for x in f.nodes):
+            res.sites += 1
+            res.fail(Finding('F-EQ', f.display(), 'mismatch does not falsify the result', f.nloc(unfalsified['i']),
+                             'when `%s` is false the comparison neither returns false nor clears the flag it returns: graphs whose '
+                             'edge sets differ (with equal counts and labels) compare equal' % f.expr_text(unfalsified['i'])[:50]))
         # the loops compare every entry: they end only by exhaustion or on a flag that is only ever cleared
         early = None
         for n in f.nodes:
@@ -1051,7 +1078,7 @@ def rule_positive_multiplicity(m):
                 continue
             nid, g = found
             a = [ctx.tt.t(v) for v in f.nodes[nid]['args']]
-            ok = _removes_all(m, g) and a[:2] == [x, y]
+            ok = _removes_all(m, g) and (a[:2] == [x, y] or (cls == UMG and a[:2] == [y, x]))
             if ok:
                 res.ok(dict(function=f.display(), zero_arm='calls %s(%s): removeAll + label erase on every path on which '
                             'the edge exists' % (g.name, ', '.join(show(v, f.unit) for v in a))), fn=f.display())
@@ -1179,10 +1206,10 @@ def rule_hasedge(m):
             ok = False
             if t[0] == 'bin' and t[1] == '&&':
                 h, eq = t[2], t[3]
-                if h[0] == 'mcall' and h[1] == cls + '::hasEdge' and h[3] == (s, d) and eq[0] == 'bin' and eq[1] == '==':
+                if h[0] == 'mcall' and h[1] == cls + '::hasEdge' and (h[3] == (s, d) or (cls == LUG and h[3] == (d, s))) and eq[0] == 'bin' and eq[1] == '==':
                     rd = ctx.label_read(eq[2]) or ctx.label_read(eq[3])
                     other = eq[3] if ctx.label_read(eq[2]) else eq[2]
-                    if rd and rd.a == s and rd.b == d and other == l:
+                    if rd and ((rd.a == s and rd.b == d) or (cls == LUG and rd.a == d and rd.b == s)) and other == l:
                         ok = True
             if not ok and cls == LUG and t[0] == 'mcall' and t[1] == LDG + '::hasEdge' and t[2] == ('this',) and len(t[3]) == 3:
                 # delegation of the canonical pair to the labelled lookup of the directed layer (checked there)
